@@ -12,7 +12,7 @@ formula string literals (plain / criterion / wildcard positions) and sheet title
   * VALUE   - a constant text cell and a plain string literal evaluate to exactly s (also through =A1, =A1&"", IF, LEFT,
               CONCATENATE, a reference from another sheet, an entry-point translation, a module loaded from a file), and
               get_titles() maps exactly the titles of the workbook;
-  * CANARY  - translating, loading and evaluating every cell never sets builtins._c07_canary (every hostile text is an
+  * CANARY  - translating, loading and evaluating every cell never sets builtins._c07_canary / re._c7 (every hostile text is an
               expression that would set it; the calls are written with a blank before '(' so that they pass the safety
               gate), and no evaluation dies with a NameError for a word of the workbook;
   * the same with the safety check on and off, for one Parser / Executor object used several times, for overrides
@@ -41,7 +41,8 @@ CALL = "setattr (__import__ ('builtins'),'_c07_canary',1)"            # blank be
 CALLQ = 'setattr (__import__ ("builtins"),"_c07_canary",1)'
 CALLN = ('__import__ (chr (98)+chr (117)+chr (105)+chr (108)+chr (116)+chr (105)+chr (110)+chr (115))'
          '.__dict__.update (_c07_canary=1)')                          # needs no quote at all
-MARKERS = {'setattr', '__import__', 'builtins', CANARY, 'chr', 'getcwd', 'print', 'zq7'}
+CANARY_SHORT = '_c7'                                                    # for hostile sheet titles of legal length (<= 31)
+MARKERS = {'setattr', '__import__', 'builtins', CANARY, CANARY_SHORT, 'chr', 'getcwd', 'print', 'zq7'}
 
 ALPHABET = ["'", '"', '\\', '\n', '#', '{', '}', '%', '(', ')', '*', '?', '~', 'a']
 
@@ -58,6 +59,7 @@ HOSTILE = ["'+str (" + CALL + ")+'", '"+str (' + CALLQ + ')+"', "\\'+str (" + CA
            "{__import__ ('builtins').__dict__.update (_c07_canary=1)}", 'x\n' + CALLN, 'x\n    ' + CALLN, 'x\n        ' + CALLN,
            "x'\n        " + CALLN + "\n        '", CALLN, CALL, CALLQ, "' or " + CALL + " or '", "',str (" + CALL + "),'",
            "')+str (" + CALL + ")+str ('", "'));" + CALL + ' #', "'\n" + CALLN + ' #', "x' if " + CALL + " else '",
+           "'+str (setattr (re,'_c7',1))+'", '"+str (setattr (re,"_c7",1))+"', '+str (setattr (re,"_c7",1))+', "+str (setattr (re,'_c7',1))+",
            'z' * 52 + "'+str (" + CALL + ")+'", "'+str (" + CALL.replace(' (', '(') + ")+'", '"+str (' + CALLQ.replace(' (', '(') + ')+"']
 # complete formulas (text outside string literals is workbook text as well): only CANARY / INERT-by-name apply
 FORMULAS = ['=COUNTIFS(A1:A3,"*"+str (' + CALLQ + ')+"")', '=SUMIF(A1:A3,"?"+str (' + CALLQ + ')+"",B1:B3)',
@@ -76,11 +78,13 @@ SYMPTOMS = ['code_executed', 'module_syntax_error', 'module_load_error', 'text_e
 
 # ------------------------------------------------------------------ canary
 def _canary_reset():
-    builtins.__dict__.pop(CANARY, None)
+    for mod in (builtins, re):
+        mod.__dict__.pop(CANARY, None)
+        mod.__dict__.pop(CANARY_SHORT, None)
 
 
 def _canary():
-    return CANARY in builtins.__dict__
+    return any(n in mod.__dict__ for mod in (builtins, re) for n in (CANARY, CANARY_SHORT))
 
 
 # ------------------------------------------------------------------ workbook shapes
@@ -116,8 +120,7 @@ def build(pos, s):
         other = s[::-1] + 'q'
         return {'titles': ['S', 'T2'], 'consts': [(0, 'A', 1, s), (0, 'A', 2, 'x'), (1, 'A', 1, other)],
                 'formulas': [(0, 'B', 1, '=A1', s), (0, 'C', 1, '=A1&""', s), (0, 'D', 1, '=CONCATENATE(A1,"")', s),
-                             (1, 'B', 1, '=A1', other), (1, 'C', 1, '=S!A1', s), (0, 'E', 1, '=COUNTIFS(A1:A2,A1)', NOEXP),
-                             (0, 'F', 1, '=IF(A1=A2,"same","diff")', NOEXP)],
+                             (1, 'B', 1, '=A1', other), (1, 'C', 1, '=S!A1', s), (0, 'E', 1, '=COUNTIFS(A1:A2,A1)', NOEXP)],
                 'cprobes': [(0, 'A', 1, s), (1, 'A', 1, other)], 'entry': (1, 'C', 1)}
     if pos == 'plain':
         fs = [(0, 'A', 1, f'="{e}"', s), (0, 'A', 2, f'=IF(1=1,"{e}","x")', s), (0, 'A', 3, f'="{e}"&""', s),
@@ -330,12 +333,19 @@ def observe(text, shape, entry, only=None, loader=None):
             line = lines[e.lineno - 1].strip() if 0 < e.lineno <= len(lines) else ''
         return {'symptoms': {'module_syntax_error': f'{type(e).__name__}: {getattr(e, "msg", e)}: {line[:160]}'}, 'skeleton': None,
                 'checked': 1}
+    code = lib.call_catch(compile, tree, '<translation>', 'exec')
     bad = _foreign(tree, text)
     if bad:
         sym['foreign_identifier'] = f'identifiers {sorted(bad)} of the workbook are identifiers of the module'
     skel = _skeleton(tree, text)
     _canary_reset()
-    cls = lib.call_catch(loader or lib.load_class_from_text, text)
+    def default_loader(_text):
+        if isinstance(code, codec.Raised):
+            return lib.load_class_from_text(text)
+        ns = {}
+        exec(code, ns)
+        return ns['ExcelInPython']
+    cls = lib.call_catch(loader or default_loader, text)
     if _canary():
         sym['code_executed'] = 'canary set while the module was loaded'
     if isinstance(cls, codec.Raised):
@@ -354,7 +364,7 @@ def observe(text, shape, entry, only=None, loader=None):
         sym['value_differs'] = f'get_titles() -> {got_titles!r}, expected {want_titles!r}'
     cells, fs = _cells_of(shape, only)
     words = None
-    probes = [(sh, c, r, exp) for (sh, c, r, _, exp) in fs] + list(shape['cprobes'])
+    probes = [(sh, c, r, exp) for (sh, c, r, _, exp) in (fs if only is None else fs[-1:])] + list(shape['cprobes'])
     if entry and shape.get('entry'):
         probes = [p for p in probes if tuple(p[:3]) == tuple(shape['entry'])]
     expected = {(sh, c, r): exp for (sh, c, r, exp) in probes}
@@ -436,6 +446,16 @@ def _one(pos, s, route, tmpdir, safety, entry, only):
     return 'ok', sym, o['checked']
 
 
+WHERE = {'const': 'constant cell', 'plain': 'string literal', 'crit': 'criterion literal', 'wild': 'wildcard literal', 'title': 'sheet title',
+         'ftext': 'formula', 'textcell': 'text cell (data type s)'}
+
+
+def _subject(pos, s, shown):
+    if pos == 'ftext':
+        return f'formula {s!r}'
+    return f'{WHERE[pos]} {s!r}' + (f' in {shown!r}' if shown is not None else '')
+
+
 def _key(pos, s, symptom):
     cls = CLS[pos]
     if pos in ('plain', 'crit', 'wild') and (_has_wild(s) or pos == 'wild'):
@@ -443,7 +463,7 @@ def _key(pos, s, symptom):
     return f'C07.{cls}.{symptom}'
 
 
-def item(pos, s, route, tmpdir, safety=False, entry=False):
+def item(pos, s, route, tmpdir, safety=False, entry=False, known=None):
     """evaluates the whole shape; when it is refused or misbehaves every formula is looked at on its own.
     -> {'evaluations', 'accepted', 'rejected', 'fails': [(key, what, replay)]}"""
     res = {'evaluations': 0, 'accepted': 0, 'rejected': 0, 'fails': []}
@@ -456,8 +476,9 @@ def item(pos, s, route, tmpdir, safety=False, entry=False):
         res['accepted'] = 1
         return res
     nform = len(build(pos, s)['formulas'])
-    if entry or nform <= 1:
-        todo = [(None, r)]
+    top = next((m for m in SYMPTOMS if r[0] == 'ok' and m in r[1]), None)
+    if entry or nform <= 1 or (known is not None and top is not None and known.get(_key(pos, s, top), 0) >= 3):
+        todo = [(None, r)]                                              # this root cause has minimal witnesses already
     else:
         todo = [(i, _one(pos, s, route, tmpdir, safety, entry, i)) for i in range(nform)]
         if r[0] == 'ok' and not any(rr[0] == 'ok' and rr[1] for _, rr in todo):
@@ -473,12 +494,9 @@ def item(pos, s, route, tmpdir, safety=False, entry=False):
                 shape = build(pos, s)
                 fs = shape['formulas'] if only is None else [shape['formulas'][only]]
                 shown = fs[-1][3] if (only is not None or pos in ('ftext',)) else None
-                where = {'const': 'constant cell', 'plain': 'formula', 'crit': 'formula', 'wild': 'formula', 'title': 'sheet title',
-                         'ftext': 'formula', 'textcell': 'text cell'}[pos]
-                subject = repr(shown) if (shown is not None and pos not in ('const', 'title', 'textcell')) else repr(s)
-                extra = f' (with formula {shown!r})' if shown is not None and pos in ('const', 'title', 'textcell') else ''
+                subject = _subject(pos, s, shown)
                 res['fails'].append((_key(pos, s, symptom),
-                                     f'{where} {subject}{extra} [{route}, safety {"on" if safety else "off"}, '
+                                     f'{subject} [{route}, safety {"on" if safety else "off"}, '
                                      f'{"entry point" if entry else "whole file"}] -> {symptom}: {rr[1][symptom]}',
                                      {'kind': 'item', 'pos': pos, 'text': s, 'safety': safety, 'entry': entry, 'only': only}))
                 break                                                   # the gravest symptom names the failure
@@ -495,9 +513,14 @@ def _chunk_worker(job):
     """job = (route, [(pos, text, safety, entry), ...])"""
     route, items = job
     total = {'evaluations': 0, 'accepted': 0, 'rejected': 0, 'fails': []}
+    known = {}
     with lib.scratch() as d:
         for pos, s, safety, entry in items:
-            _merge(total, item(pos, s, route, d, safety, entry))
+            r = item(pos, s, route, d, safety, entry, known)
+            for f in r['fails']:
+                if f[2].get('only') is not None:
+                    known[f[0]] = known.get(f[0], 0) + 1
+            _merge(total, r)
     # keep, per key, the shortest witnesses only
     best = {}
     for f in total['fails']:
@@ -611,8 +634,8 @@ def _payload_items(tier, seed):
     rng = random.Random(seed + 7)
     texts = BENIGN + HOSTILE
     if tier == 'thorough':
-        texts = texts + ['w' * 1100 + "'\"\\{titles}", "'" * 255, '\\' * 255, '{' * 64 + '}' * 63] + _random_strings(rng, 400, 3, 10)
-    sample = rng.sample(_alphabet_strings(3), 120 if tier == 'quick' else 600)
+        texts = texts + ['w' * 1100 + "'\"\\{titles}", "'" * 255, '\\' * 255, '{' * 64 + '}' * 63] + _random_strings(rng, 200, 3, 10)
+    sample = rng.sample(_alphabet_strings(3), 40 if tier == 'quick' else 300)
     return texts, sample
 
 
@@ -627,10 +650,12 @@ def sweep_payloads(tier, seed):
     for pos, what, tx in plan:
         t0 = time.time()
         its = []
+        sampled = set(sample) - set(texts)
         for s in tx:
             its.append((pos, s, True, False))
             its.append((pos, s, False, False))
-            its.append((pos, s, True, True))
+            if tier == 'thorough' or s not in sampled:
+                its.append((pos, s, True, True))
             if tier == 'thorough':
                 its.append((pos, s, False, True))
         results = _run_jobs(_chunks('pub', its, 12))
@@ -832,7 +857,7 @@ def sweep_api(tier, seed):
     jobs = [('parser', pr, tier) for pr in marked]
     jobs += [('overrides', (texts[i:i + 10], safe), tier) for i in range(0, len(texts), 10) for safe in (True, False)]
     jobs += [('class_file', texts[i:i + 6], tier) for i in range(0, len(texts), 6)]
-    btexts = texts if tier == 'thorough' else texts[:12]
+    btexts = texts if tier == 'thorough' else texts[:8]
     jobs += [('boundaries', btexts[i:i + 2], tier) for i in range(0, len(btexts), 2)]
     rng.shuffle(jobs)
     ctx = multiprocessing.get_context('fork')
@@ -945,11 +970,9 @@ def replay(payload):
                 return {'fails': False, 'text': f'{pos} text {s!r}: the translator refuses the workbook ({r[1]})', 'keys': []}
             shape = build(pos, s)
             only = payload.get('only')
-            shown = shape['formulas'][only][3] if only is not None else (shape['formulas'][0][3] if pos in ('plain', 'ftext') else None)
+            shown = shape['formulas'][only][3] if only is not None else None
             first = next((m for m in SYMPTOMS if m in r[1]), None)
-            subject = f'formula {shown!r}' if shown is not None and pos not in ('const', 'title', 'textcell') else \
-                {'const': 'constant cell', 'title': 'sheet title', 'textcell': 'text cell'}.get(pos, 'text') + f' {s!r}' + \
-                (f' (read by {shown!r})' if shown is not None else '')
+            subject = _subject(pos, s, shown)
             mode = f'[xlsx -> Parser -> Executor, safety {"on" if payload.get("safety") else "off"}, ' \
                    f'{"entry point" if payload.get("entry") else "whole file"}]'
             if first is None:
